@@ -185,9 +185,12 @@ CLAIMED = {
         "steady, identity/storage in order, and at the update revision from the partition up; FIXED POINT — converged pods give an empty plan, and then every "
         "reconcile (all API states, oracles) issues no pod or claim write; TERMINATION (TerminationProofs.v) — a fair round (plan takes effect, terminating pods "
         "finish, created pods become Ready) of any well-formed snapshot of any size strictly decreases the measure mu while the plan is non-empty and keeps "
-        "well-formedness, hence after at most mu(pods) rounds the pods are converged and stay so, whatever current revision each round resolves. "
+        "well-formedness, hence after at most mu(pods) rounds the pods are converged and stay so, whatever current revision each round resolves; QUIET "
+        "(QuietProofs.v) — in a world satisfying the decidable condition quietb (nothing to adopt or claim, update revision newest, empty plan, stored status = "
+        "computed status, history within limit) a fault-free reconcile succeeds, leaves the API state unchanged and logs list/get calls only. "
         "PARTIAL: that the full reconcile model's round (revision phase, adoption, executor) yields the pods of the abstract round is evaluated inside coqc on "
-        "worlds observed in histories and on synthetic settled worlds, not proved; quietness of status/revision writes at the fixed point is not proved. Both are "
+        "worlds observed in histories and on synthetic settled worlds, not proved; that a fair history ends in a quietb world is evaluated inside coqc on the final "
+        "world of every generated history, not proved. Both are "
         "decided on the implementation on every generated history (chaotic prefix of reconciles, kubelet events, partial cache refreshes, faults, edits that stop; "
         "fair suffix): converged, status = census, last two reconciles write nothing. The environment model (Env.v) is compared with the real world after every op inside coqc.",
    note="PARTIAL as stated (comment (4) in C02.v). Premises: valid defaulted spec (RollingUpdate carries a partition), canonical names, no unclaimable pod "
